@@ -32,6 +32,7 @@ RULE = ('A history is a sequence over {save_spike_clusters(random merge/split/re
         'waveforms vs raw windows). scripted families save / reload / save other / save again the load-time value / reload for every field and for the assignments; quick: all histories of length <= 2 over a 9-operation alphabet + seeded '
         'random histories of length <= 8; thorough: length <= 3 + more random. non-trivial = distinct '
         'histories with >= 2 saves of the same kind or a malformed file before a reload.')
+RULE += ' Added classes: model loaded through a relative path with a chdir before saving; spike_clusters.npy stored as uint16 / int16 and saved ids beyond the range of that dtype; metadata values given as NumPy scalars (np.float64, np.int64, np.float32).'
 EXHAUSTIVE = {'quick': True, 'thorough': True}
 EXHAUSTIVE_SCOPE = {'quick': 'histories of length <= 2 over the 9-operation reduced alphabet; random part sampled',
                     'thorough': 'histories of length <= 3 over the reduced alphabet; random part sampled'}
